@@ -565,27 +565,33 @@ def run(ctx):
         for i in range(ctx.n(150, 3000)):
             order = rng.sample(LMS, rng.randint(1, 5))
             cfgs  = {lm: gen_cfg(rng, lm) for lm in order}
-            lmc   = rng.choice(order)
-            t     = gen_task(rng, lmc, cfgs[lmc])
             rm = object.__new__(ResourceManager)
             rm._log = rpload.NullLog()
             rm._launch_order = list(order)
             rm._launchers = {lm: make_lm(rp, lm, cfgs[lm], sbox) for lm in order}
-            task = make_task(rp, t, 'task.%06d' % i, sbox)
-            cans = []
-            ok = True
-            for lm in order:
-                try: cans.append(bool(rm._launchers[lm].can_launch(task)[0]))
-                except IndexError: ok = False; break
-            if not ok: continue
-            l, name = rm.find_launcher(task)
-            fops.append({'op': 'find', 'order': [[LMS.index(lm), c] for lm, c in zip(order, cans)]})
-            fimpl.append(LMS.index(name) if name else None)
-            ctx.case(fops[-1], nontrivial=name is not None and name != order[0])
-            if name is not None and (not cans[order.index(name)] or any(cans[:order.index(name)])):
-                ctx.fail('find_launcher:not-the-first-capable', '%s of %s %s' % (name, order, cans), {'lm': 'find', 'order': order})
-            if name is None and any(cans):
-                ctx.fail('find_launcher:capable-launcher-skipped', '%s %s' % (order, cans), {'lm': 'find', 'order': order})
+            # one resource manager serves the whole workload: several tasks in a row, judged against the CONFIGURED
+            # order (what a task gets must not depend on the tasks looked up before it)
+            seq = []
+            for k in range(rng.choice([1, 2, 3, 4])):
+                lmc   = rng.choice(order)
+                t     = gen_task(rng, lmc, cfgs[lmc])
+                seq.append(t)
+                task = make_task(rp, t, 'task.%06d' % (10 * i + k), sbox)
+                cans = []
+                ok = True
+                for lm in order:
+                    try: cans.append(bool(rm._launchers[lm].can_launch(task)[0]))
+                    except IndexError: ok = False; break
+                if not ok: break
+                l, name = rm.find_launcher(task)
+                fops.append({'op': 'find', 'order': [[LMS.index(lm), c] for lm, c in zip(order, cans)]})
+                fimpl.append(LMS.index(name) if name else None)
+                ctx.case(fops[-1], nontrivial=name is not None and name != order[0])
+                if name is not None and (not cans[order.index(name)] or any(cans[:order.index(name)])):
+                    ctx.fail('find_launcher:not-the-first-capable', '%s of configured order %s %s (task %d looked up on this resource manager)'
+                             % (name, order, cans, k + 1), {'lm': 'find', 'order': order, 'cfgs': cfgs, 'tasks': list(seq)})
+                if name is None and any(cans):
+                    ctx.fail('find_launcher:capable-launcher-skipped', '%s %s' % (order, cans), {'lm': 'find', 'order': order, 'cfgs': cfgs, 'tasks': list(seq)})
     finally:
         shutil.rmtree(sbox, ignore_errors=True)
     ctx.extra['distribution'] = dist
@@ -608,7 +614,26 @@ def replay(ctx, data):
     rp = rpload.load()
     i  = data['input']
     if i.get('lm') == 'find':
-        return False
+        if 'tasks' not in i: return False
+        from radical.pilot.agent.resource_manager.base import ResourceManager
+        sbox = tempfile.mkdtemp(prefix='c09_')
+        try:
+            order = i['order']
+            rm = object.__new__(ResourceManager)
+            rm._log = rpload.NullLog()
+            rm._launch_order = list(order)
+            rm._launchers = {lm: make_lm(rp, lm, i['cfgs'][lm], sbox) for lm in order}
+            ok = True
+            for k, t in enumerate(i['tasks']):
+                task = make_task(rp, t, 'task.%06d' % k, sbox)
+                cans = [bool(rm._launchers[lm].can_launch(task)[0]) for lm in order]
+                l, name = rm.find_launcher(task)
+                first = next((lm for lm, c in zip(order, cans) if c), None)
+                print('task', k + 1, 'configured order', order, 'can launch', cans, '->', name, '(order now %s)' % rm._launch_order)
+                ok = ok and name == first
+            return ok
+        finally:
+            shutil.rmtree(sbox, ignore_errors=True)
     sbox = tempfile.mkdtemp(prefix='c09_')
     try:
         if i['lm'] == 'JSRUN':
